@@ -1,18 +1,27 @@
 """C40 - ssh_config lookup follows OpenSSH first-obtained-value semantics.
 
 Domain: generated configs of <= 12 blocks (optional leading global section, `Host` blocks with 1-4
-lowercase / wildcard / negated / quoted patterns, `Match all`, `Match [!]host|originalhost <pattern-list>`),
-keys User, Port, HostName, IdentityFile (repeatable), ProxyCommand (incl. `none`), ControlPath,
+lowercase / wildcard / negated / quoted patterns, `Match all`, `Match [final] [!]host|originalhost|user|localuser
+<pattern-list> ...`), keys User, Port, HostName, IdentityFile (repeatable), ProxyCommand (incl. `none`), ControlPath,
 ForwardAgent, Compression - repeated inside and across blocks, written as `key value`, `key=value`,
 `key = value`, quoted values, mixed key case, comments, blank lines, indentation, LF/CRLF.
 %-tokens only where ssh_config(5) *and* paramiko's docs allow them: %h in HostName; %h %r %u %d (%C %l) in
 IdentityFile; %h %p %r in ProxyCommand; %h %p %r %u %n %L (%C %l) in ControlPath.
-Soundness restriction: a config that uses `Match host` has no HostName key (the statement does not define
-the two-pass interaction); no Match exec/canonical/final/user/localuser.
+No Match exec/canonical (need a subprocess / a resolver).
 
 Reference model (below, independent of paramiko): walk blocks in file order, a Host block applies iff some
 positive pattern matches and no negated one does, every key keeps its first value, IdentityFile concatenates
 without duplicates, HostName defaults to the looked-up name, then tokens expand with the OpenSSH meanings.
+Match criteria follow the documented two-walk semantics (ssh_config(5) Match / `final`; paramiko docs: "Match user
+... can match against loaded User values", "Added support for the final keyword"): `host` is compared with the
+HostName obtained so far (else the looked-up name), `user` with the User obtained so far (else the local user),
+`originalhost` with the looked-up name, `localuser` with the local user, `final` holds only on the second walk;
+the file is walked twice and the second walk sees everything the first one obtained (after the HostName default).
+Where the statement ("first block in file order that applies") and the two-walk order disagree, nothing is asserted:
+ * a scalar key for which "first applying block in file order" and "first obtained over the two walks" differ is
+   not compared (if it is HostName/User/Port, which feed criteria and tokens, the whole name is only run, not compared);
+ * IdentityFile is then compared as a duplicate-free set instead of a list;
+ * a `host` criterion whose outcome differs between the raw and the %h-expanded HostName: name only run, not compared.
 Oracle: lookup(name) == model for every key (no extra keys); repeated lookups on one object agree;
 get_hostnames() == all Host pattern tokens plus the implicit "*" and never raises.
 """
@@ -30,18 +39,20 @@ PROPERTY = "C40"
 LEVEL = "exploration"
 RULE = (
     "hypothesis-generated ssh_config texts (<=12 Host/Match blocks over a small host-name/pattern pool so that several "
-    "blocks apply, repeated keys, IdentityFile lists, %-tokens, syntactic noise) each looked up for 1-4 names and compared "
-    "key-by-key with an independent first-obtained-value model; non-trivial = for some looked-up name >=2 applicable blocks "
+    "blocks apply, repeated keys, IdentityFile lists, %-tokens, syntactic noise; Match criteria all/final/host/originalhost/"
+    "user/localuser whose outcome may depend on HostName/User values set by EARLIER or LATER blocks - two-walk model) each "
+    "looked up for 1-4 names and compared key-by-key with an independent first-obtained-value model; non-trivial = for some looked-up name >=2 applicable blocks "
     "define the same key, or a negated pattern/criterion decides applicability, or a %-token is expanded; distinct by SHA-1 "
     "of (config structure, names)"
 )
 
 NAMES = ["a", "b", "ab", "ba", "a1", "web1", "web2", "db", "a.example.com", "db.example.com", "x.y"]
-PATTERNS = NAMES + ["*", "?", "??", "a*", "*b", "a?", "web?", "*.example.com", "*.*", "?b", "w*1", "db*", "*a*"]
+PATTERNS = NAMES + ["*", "?", "??", "a*", "*b", "a?", "web?", "*.example.com", "*.*", "?b", "w*1", "db*", "*a*", "10.*", "gw-*", "real*"]
+UPATTERNS = ["alice", "bob", "root", "carol", "a*", "*b", "?ob", "r*", "*", "b??", "*o*"]
 VALUES = {
     "User": ["alice", "bob", "root"],
     "Port": ["22", "2222", "2200"],
-    "HostName": ["%h", "%h.example.com", "10.0.0.1", "real.example.com", "gw-%h", "%h.%h"],
+    "HostName": ["%h", "%h.example.com", "10.0.0.1", "real.example.com", "gw-%h", "%h.%h", "db.example.com", "web1", "b"],
     "IdentityFile": ["/k/id_%h", "/k/%r@%h", "%d/.ssh/id_rsa", "/k/%u.key", "/k/plain", "/k/other", "/k/%u-%r-%h", "/k/%C", "/k/%l.key"],
     "ProxyCommand": ["ssh -W %h:%p gw", "nc %h %p", "none", "None", "connect -l %r %h %p", "plainproxy"],
     "ControlPath": ["/tmp/cp-%r@%h:%p", "/tmp/%u-%n-%L", "/tmp/%C", "/tmp/%l-%h", "/tmp/static", "/tmp/%n.%h"],
@@ -107,37 +118,115 @@ def _mk_crit(typ, f, pats):
     return [typ, f % 3 == 2, [[p, g % 4 == 3] for p, g in pats], f >= 3]  # [type, negated, [[pattern, negated]], quoted]
 
 
-def _blocks(match_host):
-    keys = [k for k in VALUES if not (match_host and k == "HostName")]
-    kv = [(k, v) for k in keys for v in VALUES[k]]
-    # bias towards the accumulating / token-bearing keys
-    kv += [("IdentityFile", v) for v in VALUES["IdentityFile"]] * 2 + ([] if match_host else [("HostName", v) for v in VALUES["HostName"]])
+def _blocks(full, with_final=False):
+    kv = [(k, v) for k in VALUES for v in VALUES[k]]
+    # bias towards the accumulating / token-bearing keys (and, in the full mode, the keys Match criteria depend on)
+    kv += [("IdentityFile", v) for v in VALUES["IdentityFile"]] * 2 + [("HostName", v) for v in VALUES["HostName"]]
+    if full:
+        kv += [("User", v) for v in VALUES["User"]] * 2
     lines = st.lists(st.builds(_mk_line, st.sampled_from(kv), _style), max_size=5)
     host = st.builds(_mk_host, _style, st.lists(_pat, min_size=1, max_size=4), lines)
-    crit = st.builds(
-        _mk_crit,
-        st.sampled_from(["host", "originalhost"] if match_host else ["originalhost"]),
-        st.integers(0, 5),
-        st.lists(st.tuples(st.sampled_from(PATTERNS), st.integers(0, 3)), min_size=1, max_size=3),
-    )
-    crits = st.one_of(st.just([["all", False, [], False]]), st.lists(crit, min_size=1, max_size=2), st.lists(crit, min_size=1, max_size=2))
+    hpats = st.lists(st.tuples(st.sampled_from(PATTERNS), st.integers(0, 3)), min_size=1, max_size=3)
+    upats = st.lists(st.tuples(st.sampled_from(UPATTERNS), st.integers(0, 3)), min_size=1, max_size=3)
+    ocrit = st.builds(_mk_crit, st.just("originalhost"), st.integers(0, 5), hpats)
+    if full:
+        hcrit = st.builds(_mk_crit, st.just("host"), st.integers(0, 5), hpats)
+        ucrit = st.builds(_mk_crit, st.sampled_from(["user", "user", "localuser"]), st.integers(0, 5), upats)
+        final = st.just(["final", False, [], False])
+        crit = st.one_of(hcrit, hcrit.map(lambda v: v), ucrit, ucrit.map(lambda v: v), ocrit, *([final] if with_final else []))
+    else:
+        crit = ocrit
+    crits = st.one_of(st.just([["all", False, [], False]]), st.lists(crit, min_size=1, max_size=2), st.lists(crit, min_size=1, max_size=3))
     match = st.builds(_mk_match, _style, crits, lines)
     glob = st.builds(lambda ls: {"kind": "global", "lines": ls}, lines)
-    rest = st.lists(st.one_of(host, host, host, match), max_size=11)
+    rest = st.lists(st.one_of(host, match), max_size=11)
     return st.builds(lambda first, more: [first] + more, st.one_of(host, host, match, glob), rest)
 
+
+# "Coupled" configs: few blocks over SMALL pools chosen so that Match host/user pattern lists relate to the HostName/User
+# VALUES of the same config (not to the looked-up names / the local user): whether a Match block applies is then decided
+# by what other blocks - standing earlier or later in the file - have contributed.  One integer per block (mixed radix;
+# 0 = `Host a` without lines), so generation is cheap and shrinking works on the block list.
+C_NAMES = ["a", "web1", "db", "web2"]
+C_HOSTPATS = ["a", "web1", "db", "*", "web?", "a*", "d?"]
+C_HOSTNAMES = ["real.example.com", "10.0.0.1", "gw-%h", "%h.example.com", "web1", "db.example.com"]
+C_HCRIT = ["real.example.com", "*.example.com", "10.*", "gw-*", "real*", "web1", "db*", "a", "*"]
+C_UCRIT = ["alice", "bob", "a*", "*b", "?ob", "b??", "carol", "root", "*o*", "*"]
+C_KV = (
+    [("User", v) for v in VALUES["User"]]
+    + [("HostName", v) for v in C_HOSTNAMES]
+    + [("IdentityFile", v) for v in VALUES["IdentityFile"]]
+    + [(k, v) for k in ("Port", "ProxyCommand", "ControlPath", "ForwardAgent", "Compression") for v in VALUES[k]]
+)
+C_TYPES = ["host", "user", "host", "user", "host", "user", "originalhost", "localuser"]
+# pattern lists that match a given HostName / User value (the coupling)
+C_FOR_HOSTNAME = {
+    "real.example.com": ["real.example.com", "*.example.com", "real*"],
+    "10.0.0.1": ["10.*", "10.0.0.1", "*.1"],
+    "gw-%h": ["gw-*", "gw-*"],
+    "%h.example.com": ["*.example.com", "?*.example.com"],
+    "web1": ["web1", "web?"],
+    "db.example.com": ["db*", "*.example.com", "db.example.com"],
+}
+C_FOR_USER = {"alice": ["alice", "a*"], "bob": ["bob", "*b", "?ob", "b??"], "root": ["root", "*o*", "r*"]}
+
+
+def _coupled_block(n, anchor_host, anchor_user, anchor_name):
+    def take(k):
+        nonlocal n
+        n, r = divmod(n, k)
+        return r
+
+    def pick(pool):
+        return pool[take(len(pool))]
+
+    is_match = take(2)
+    lines = []
+    for _ in range(take(4)):
+        c = take(4)
+        kv = ("HostName", anchor_host) if c == 1 else ("User", anchor_user) if c == 2 else pick(C_KV)
+        lines.append(_mk_line(kv, take(_NSTYLE) if take(4) == 3 else 0))
+    if not is_match:
+        pats = [[anchor_name if take(2) else pick(C_HOSTPATS), take(8) == 7, False] for _ in range(1 + (take(3) == 2))]
+        return {"kind": "host", "kw": ["Host", " ", ""], "pats": pats, "lines": lines}
+    crit = []
+    for _ in range(1 + (take(3) == 2)):
+        typ = pick(C_TYPES)
+        if typ in ("user", "localuser"):
+            pool, tied = C_UCRIT, C_FOR_USER[anchor_user]
+        elif typ == "host":
+            pool, tied = C_HCRIT, C_FOR_HOSTNAME[anchor_host]
+        else:
+            pool, tied = C_HOSTPATS, [anchor_name]
+        pats = [[pick(tied) if take(2) else pick(pool), take(8) == 7] for _ in range(1 + (take(3) == 2))]
+        crit.append([typ, take(6) == 5, pats, False])
+    return {"kind": "match", "kw": ["Match", " ", ""], "crit": crit, "lines": lines}
+
+
+def _mk_coupled(anchor, ns, names):
+    ah = C_HOSTNAMES[anchor % len(C_HOSTNAMES)]
+    au = VALUES["User"][(anchor // len(C_HOSTNAMES)) % 3]
+    return {"blocks": [_coupled_block(n, ah, au, names[0]) for n in ns], "names": names, "eol": "\n"}
+
+
+_coupled = st.builds(
+    _mk_coupled,
+    st.integers(0, 3 * len(C_HOSTNAMES) - 1),
+    st.lists(st.integers(0, (1 << 96) - 1), min_size=2, max_size=8),
+    st.lists(st.sampled_from(C_NAMES), min_size=1, max_size=2),
+)
 
 _names = st.lists(st.one_of(st.sampled_from(NAMES), st.text(alphabet="ab1.x", min_size=1, max_size=5)), min_size=1, max_size=4)
 _case = st.builds(
     lambda blocks, names, eol: {"blocks": blocks, "names": names, "eol": eol},
-    st.one_of(_blocks(False), _blocks(True)),
+    st.one_of(_blocks(False), _blocks(True), _blocks(True, with_final=True)),
     _names,
     st.sampled_from(["\n", "\n", "\n", "\r\n"]),
 )
 
 
 def case_st():
-    return _case
+    return st.one_of(_case, _coupled)
 
 
 def render(case):
@@ -154,7 +243,7 @@ def render(case):
             words = []
             for typ, neg, pats, quoted in b["crit"]:
                 words.append(("!" if neg else "") + typ)
-                if typ != "all":
+                if typ not in ("all", "final"):
                     words.append(q(",".join(("!" if pneg else "") + p for p, pneg in pats), quoted))
             out.append(ind + kw + sep + " ".join(words))
         for key, sep, value, quoted, ind, pre, trail in b["lines"]:
@@ -192,39 +281,93 @@ def _patlist(pats, name):
     return (pos and not veto), (pos and veto)
 
 
-def model_lookup(case, name):
-    """-> (raw options before token expansion, info for the non-trivial rule)."""
-    opts, ndefs, negdec, idf_blocks = {}, {}, False, []
-    for b in case["blocks"]:
-        if b["kind"] == "host":
-            ok, nd = _patlist([(p, neg) for p, neg, _ in b["pats"]], name)
-            negdec = negdec or nd
-        elif b["kind"] == "match":
-            ok = True
-            for typ, neg, pats, _ in b["crit"]:
-                if typ == "all":
-                    continue
-                m, _nd = _patlist([(p, pneg) for p, pneg in pats], name)  # host == originalhost: no HostName in such configs
-                negdec = negdec or neg or _nd
-                ok = ok and (m != neg)
-        else:
-            ok = True
-        if not ok:
+def _block_applies(b, name, opts, final, info):
+    """Does block b apply now?  opts = options obtained so far (raw)."""
+    if b["kind"] == "global":
+        return True
+    if b["kind"] == "host":
+        ok, nd = _patlist([(p, neg) for p, neg, _ in b["pats"]], name)
+        info["neg"] = info["neg"] or nd
+        return ok
+    local = getpass.getuser()
+    ok = True
+    for typ, neg, pats, _ in b["crit"]:
+        if typ == "all":
             continue
-        seen = set()
+        if typ == "final":
+            info["final-kw"] = True
+            ok = ok and final
+            continue
+        pl = [(p, pneg) for p, pneg in pats]
+        if typ == "host":
+            raw = opts.get("hostname") or name
+            m, _nd = _patlist(pl, raw)
+            if "%" in raw:
+                m2, _ = _patlist(pl, raw.replace("%h", name))
+                if m2 != m:
+                    info["host-vs-token"] = True  # raw or expanded HostName? not defined: the name is not compared
+            if m != _patlist(pl, name)[0]:
+                info["crit-on-obtained"] = True
+        elif typ == "originalhost":
+            m, _nd = _patlist(pl, name)
+        elif typ == "user":
+            m, _nd = _patlist(pl, opts.get("user") or local)
+            if m != _patlist(pl, local)[0]:
+                info["crit-on-obtained"] = True
+        elif typ == "localuser":
+            m, _nd = _patlist(pl, local)
+        else:
+            raise AssertionError(typ)
+        info["neg"] = info["neg"] or neg or _nd
+        ok = ok and (m != neg)
+    return ok
+
+
+def _obtain(opts, b):
+    """First obtained value per key; IdentityFile accumulates without duplicates. -> did opts change?"""
+    changed = False
+    for line in b["lines"]:
+        key, value = line[0].lower(), line[2]
+        if key == "identityfile":
+            lst = opts.setdefault(key, [])
+            if value not in lst:
+                lst.append(value)
+                changed = True
+        elif key not in opts:
+            opts[key] = None if (key == "proxycommand" and value.lower() == "none") else value
+            changed = True
+    return changed
+
+
+def model_lookup(case, name):
+    """-> (raw options before token expansion, info for the non-trivial rule / the not-asserted keys)."""
+    info = {"neg": False, "final-kw": False, "host-vs-token": False, "crit-on-obtained": False, "final-only": False, "final-adds": False}
+    opts, applied = {}, {}
+    for walk in (1, 2):
+        for i, b in enumerate(case["blocks"]):
+            if not _block_applies(b, name, opts, walk == 2, info):
+                continue
+            changed = _obtain(opts, b)
+            if i not in applied:
+                applied[i] = walk
+                if walk == 2:
+                    info["final-only"] = True
+                    info["final-adds"] = info["final-adds"] or changed
+        opts.setdefault("hostname", name)
+    # the statement's reading: the blocks that applied, in FILE order
+    stmt, ndefs, idf_blocks = {}, {}, []
+    for i in sorted(applied):
+        b = case["blocks"][i]
+        _obtain(stmt, b)
         idf_blocks.append([line[2] for line in b["lines"] if line[0].lower() == "identityfile"])
-        for line in b["lines"]:
-            key, value = line[0].lower(), line[2]
-            seen.add(key)
-            if key == "identityfile":
-                lst = opts.setdefault(key, [])
-                if value not in lst:
-                    lst.append(value)
-            elif key not in opts:
-                opts[key] = None if (key == "proxycommand" and value.lower() == "none") else value
-        for key in seen:
+        for key in set(line[0].lower() for line in b["lines"]):
             ndefs[key] = ndefs.get(key, 0) + 1
-    opts.setdefault("hostname", name)
+    stmt.setdefault("hostname", name)
+    assert set(stmt) == set(opts)
+    open_keys = sorted(k for k in opts if k != "identityfile" and opts[k] != stmt[k])
+    info["open-keys"] = open_keys
+    info["idf-unordered"] = opts.get("identityfile") != stmt.get("identityfile")
+    info["skip-name"] = info["host-vs-token"] or bool(set(open_keys) & {"hostname", "user", "port"})
     # what the known defect "duplicates inside the first defining block are kept" would produce (bucket diagnosis only)
     idf_blocks = [x for x in idf_blocks if x]
     dup_first = list(idf_blocks[0]) if idf_blocks else []
@@ -232,7 +375,9 @@ def model_lookup(case, name):
         for v in blk:
             if v not in dup_first:
                 dup_first.append(v)
-    return opts, {"multi": any(v >= 2 for v in ndefs.values()), "neg": negdec, "idf_dup_first": dup_first}
+    info["multi"] = any(v >= 2 for v in ndefs.values())
+    info["idf_dup_first"] = dup_first
+    return opts, info
 
 
 def _env(opts, name, hostname_expanded=True):
@@ -280,6 +425,17 @@ def _matches(key, raw, got, env, name):
     return isinstance(got, str) and re.fullmatch(_pattern(key, raw, env, name), got, re.S) is not None
 
 
+def _match_unordered(key, want, have, env, name):
+    """Is there a one-to-one assignment of the expected raw values to the returned values? (lists are short)"""
+    if not want:
+        return not have
+    w = want[0]
+    for i, h in enumerate(have):
+        if _matches(key, w, h, env, name) and _match_unordered(key, want[1:], have[:i] + have[i + 1 :], env, name):
+            return True
+    return False
+
+
 # ----------------------------------------------------------------------------- oracle
 
 
@@ -303,9 +459,13 @@ def _check_lookup(ctx, case, text, name, got, opts, info):
         if key not in opts:
             ctx.violation("lookup-keys", "extra:%s" % key, case, "name=%r lookup has %s=%r, no applicable block sets it\n%s" % (name, key, got[key], text))
             continue
+        if key in info["open-keys"]:
+            continue  # file order and two-walk order disagree on this key: not defined, not compared
         want, have = opts[key], got[key]
         if want is None:
             ok = have is None
+        elif isinstance(want, list) and info["idf-unordered"]:
+            ok = isinstance(have, list) and len(have) == len(want) and _match_unordered(key, want, have, env, name)
         elif isinstance(want, list):
             ok = isinstance(have, list) and len(have) == len(want) and all(_matches(key, w, h, env, name) for w, h in zip(want, have))
         else:
@@ -351,7 +511,25 @@ def execute(ctx, case):
         classes.add("proxycommand-none")
     if any(len(o.get("identityfile", [])) >= 2 for o, _ in models):
         classes.add("identityfile-accumulates")
-    nontrivial = bool(classes & {"first-value-decides", "negation-decides", "token-expanded"})
+    for b in case["blocks"]:
+        if b["kind"] == "match":
+            classes.update("match-" + c[0] for c in b["crit"])
+    for _, i in models:
+        if i["crit-on-obtained"]:
+            classes.add("criterion-decided-by-obtained-hostname-or-user")
+        if i["final-only"]:
+            classes.add("block-applies-on-final-walk-only")
+        if i["final-adds"] and not i["skip-name"]:
+            classes.add("final-walk-only-block-contributes")
+            if not i["final-kw"]:
+                classes.add("final-walk-only-block-contributes:value-from-later-block")
+        if i["skip-name"]:
+            classes.add("not-compared:host-criterion-vs-token" if i["host-vs-token"] else "not-compared:open-hostname-user-port")
+        elif i["open-keys"]:
+            classes.add("open-key-not-compared")
+        if i["idf-unordered"] and not i["skip-name"]:
+            classes.add("identityfile-compared-as-set")
+    nontrivial = bool(classes & {"first-value-decides", "negation-decides", "token-expanded", "final-walk-only-block-contributes"})
     ctx.case(case, nontrivial, sorted(classes))
 
     try:
@@ -377,7 +555,7 @@ def execute(ctx, case):
             ctx.violation("lookup-raises", exc_bucket(e), case, "lookup(%r): %r\n%s" % (name, e, text))
             return
         results.append(dict(got))
-        if len(results) <= len(case["names"]):
+        if len(results) <= len(case["names"]) and not info["skip-name"]:
             _check_lookup(ctx, case, text, name, dict(got), opts, info)
     if results[-1] != results[0]:
         ctx.violation("lookup-repeat", "result-changes-on-repeated-lookup", case, "first %r\nagain %r\n%s" % (results[0], results[-1], text))
@@ -388,7 +566,7 @@ def run(ctx):
     ctx.assume("local user, home directory and short local host name are taken from getpass/os.path/socket (as documented for %u %d %L)")
     ctx.assume("%C and %l are only checked for 'token replaced by a hash / host name', their values depend on the resolver")
     ctx.assume("%u with a configured User: both the local user (ssh_config(5)) and the configured User (paramiko docs) are accepted")
-    ctx.explore(case_st(), lambda c: execute(ctx, c), ctx.scale(2500, 40000))
+    ctx.explore(case_st(), lambda c: execute(ctx, c), ctx.scale(3000, 40000))
 
 
 def replay(ctx, case):
